@@ -19,57 +19,53 @@ theorem chanOffsets_eq_prefix (maps : List (List Nat)) (h : MapsOK maps) (k : Na
 
 /-- The channels of probe k form one contiguous block in input order: merged position
 `prefix_k + i` holds probe k's map entry i shifted by the block offset, and is labelled k. -/
-theorem channels_block (maps : List (List Nat)) (h : MapsOK maps) (k i : Nat) (hk : k < maps.length)
+theorem channels_block (maps : List (List Nat)) (h : MapsOK maps) (k i : Nat)
     (hi : i < (maps.getD k []).length) :
     (mergeChannelMaps maps).getD (prefixSum (maps.map List.length) k + i) 0 =
         (maps.getD k []).getD i 0 + prefixSum (maps.map List.length) k ∧
     (channelProbes maps).getD (prefixSum (maps.map List.length) k + i) maps.length = k ∧
     (mergeChannelMaps maps).length = (maps.map List.length).sum ∧
     (channelProbes maps).length = (maps.map List.length).sum :=
-  Lemmas.channels_block maps h k i hk hi
+  Lemmas.channels_block maps h k i hi
 
 /-- Geometry: every probe keeps its positions up to a translation along x … -/
-theorem positions_translated (pos : List (List (Int × Int))) (k : Nat) (hk : k < pos.length) :
+theorem positions_translated (pos : List (List (Int × Int))) (k : Nat) :
     ∃ dx : Int, (shiftPositionsFrom 0 pos).getD k [] = (pos.getD k []).map fun xy => (xy.1 + dx, xy.2) :=
-  Lemmas.positions_translated pos k hk
+  Lemmas.positions_translated pos k
 
 /-- … that keeps different probes apart: every channel of an earlier probe lies strictly to the
 left of every channel of a later probe. -/
-theorem positions_apart (pos : List (List (Int × Int))) (h : PosOK pos) (k l : Nat) (hkl : k < l)
-    (hl : l < pos.length) :
+theorem positions_apart (pos : List (List (Int × Int))) (h : PosOK pos) (k l : Nat) (hkl : k < l) :
     ∀ a ∈ (shiftPositionsFrom 0 pos).getD k [], ∀ b ∈ (shiftPositionsFrom 0 pos).getD l [], a.1 < b.1 :=
-  Lemmas.positions_apart pos h k l hkl hl
+  Lemmas.positions_apart pos h k l hkl
 
 /-- Templates: template t of probe k appears at index `toff_k + t` (toff = summed template counts)
 with its waveform on probe k's channel block and zeros on all other channels — for any number of
 probes with any channel and template counts. -/
 theorem templates_block (ts : List (List (List (List α)))) (ns : Nat) (ncs : List Nat)
-    (hlen : ncs.length = ts.length)
     (hok : ∀ k (hk : k < ts.length), TmplOK (ts[k]'hk) ns (ncs.getD k 0))
-    (k t s c : Nat) (hk : k < ts.length) (ht : t < (ts[k]'hk).length) (hs : s < ns)
-    (hc : c < ncs.sum) :
+    (k t s c : Nat) (hk : k < ts.length) (ht : t < (ts[k]'hk).length) :
     get3 (mergeTemplates ts) (prefixSum (ts.map List.length) k + t) s c =
       if prefixSum ncs k ≤ c ∧ c < prefixSum ncs k + ncs.getD k 0
       then get3 (ts[k]'hk) t s (c - prefixSum ncs k) else 0 :=
-  Lemmas.templates_block ts ns ncs hlen hok k t s c hk ht hs hc
+  Lemmas.templates_block ts ns ncs hok k t s c hk ht
 
 /-- Index tables are shifted by the per-probe offsets and concatenated in probe order. -/
 theorem tables_shifted (tables : List (List (List Nat))) (offsets : List Nat)
-    (hlen : offsets.length = tables.length) (k r c : Nat) (hk : k < tables.length)
+    (hlen : offsets.length = tables.length) (k r c : Nat)
     (hr : r < (tables.getD k []).length) :
     ((shiftTables tables offsets).getD (prefixSum (tables.map List.length) k + r) []).getD c 0 =
       if c < ((tables.getD k []).getD r []).length
       then ((tables.getD k []).getD r []).getD c 0 + offsets.getD k 0 else 0 :=
-  Lemmas.tables_shifted tables offsets hlen k r c hk hr
+  Lemmas.tables_shifted tables offsets hlen k r c hr
 
 /-- Whitening / similarity matrices: block-diagonal with the per-probe matrices as blocks. -/
 theorem blockDiag_entries (ms : List (List (List α))) (hsq : ∀ m ∈ ms, ∀ row ∈ m, row.length = m.length)
-    (k i j : Nat) (hk : k < ms.length) (hi : i < (ms.getD k []).length)
-    (hj : j < (ms.map List.length).sum) :
+    (k i j : Nat) (hi : i < (ms.getD k []).length) :
     get2 (blockDiag ms) (prefixSum (ms.map List.length) k + i) j =
       if prefixSum (ms.map List.length) k ≤ j ∧ j < prefixSum (ms.map List.length) k + (ms.getD k []).length
       then get2 (ms.getD k []) i (j - prefixSum (ms.map List.length) k) else 0 :=
-  Lemmas.blockDiag_entries ms hsq k i j hk hi hj
+  Lemmas.blockDiag_entries ms hsq k i j hi
 
 /-- Merged parameters keep the (first probe's) sampling rate and declare the summed raw channel
 count. -/
